@@ -76,6 +76,15 @@ def build():
     exe = os.path.join(d, "c08.test")
     rc, out = vlib.sh([vlib.GO, "test", "-c", "-vet=off", "-tags", "verif", "-overlay", ov, "-o", exe, "."],
                       cwd=d, env=vlib.GOENV, timeout=900)
+    if rc != 0 and "verif_export.go" in out:
+        # the wrappers around the UNEXPORTED queue functions do not compile (renamed / inlined / removed helpers): that
+        # is not a property of pipe.New; exercise the public pump layer alone and say so in the evidence
+        with open(ov, "w") as f:
+            json.dump({"Replace": {os.path.join(os.path.realpath(vlib.REPO), "pipe", "verif_export.go"):
+                                   os.path.join(vlib.ROOT, "harness/c08/verif_export_none.go.src")}}, f)
+        _BUILT["queue_layer"] = "not reachable: " + " | ".join(l.strip() for l in out.split("\n") if "verif_export.go" in l)[:400]
+        rc, out = vlib.sh([vlib.GO, "test", "-c", "-vet=off", "-tags", "verif", "-overlay", ov, "-o", exe, "."],
+                          cwd=d, env=vlib.GOENV, timeout=900)
     if rc != 0:
         raise vlib.HarnessError("harness does not build against %s/pipe (overlay %s):\n%s" % (vlib.REPO, ov, out[-1500:]))
     _BUILT.update(dir=d, exe=exe)
@@ -180,6 +189,8 @@ def run_impl(ctx, tier=None):
                 out += run_listed(ctx, [rc])
         return out
     cases = _pump_batch(ctx, {}, tier)
+    if _BUILT.get("queue_layer"):
+        ctx.notes["queue_layer"] = _BUILT["queue_layer"]
     # spread the (large) queue cases over the shards
     qs = [c for c in cases if c["layer"] == "queue"]
     ps = [c for c in cases if c["layer"] != "queue"]
